@@ -26,6 +26,34 @@ type c06Case struct {
 	// Huge: instead of Prog, a very long program described by a few numbers (see hugeProgram): jumps whose targets lie
 	// beyond instruction 65535 and 131071 - "however far away it is".
 	Huge *c06Huge `json:"huge,omitempty"`
+	// Dense: instead of Prog, a jump over a dense run of M jumps whose two branches are both far and all different: every
+	// one of them needs two bridges of its own, so the distance of the enclosing (near) jump grows up to threefold while
+	// the bridges are inserted.
+	Dense *c06Dense `json:"dense,omitempty"`
+	// ZeroAt > 0: the jump with ordinal ZeroAt-1 (among the program's jumps) compares with the constant 0 (comparisons with
+	// 0 are what the upper words of small operands produce; "A <= 0" and "A < 0" are not the same thing)
+	ZeroAt int `json:"zero_at,omitempty"`
+}
+
+type c06Dense struct {
+	M    int `json:"m"`    // number of dense jumps (the enclosing jump's label distance is M+1)
+	Cond int `json:"cond"` // index into c06Conds of the enclosing jump
+}
+
+func denseProgram(d *c06Dense) labelvm.Program {
+	m := d.M
+	base := 2 + m + 1 + 300
+	n := base + 2*m + 1
+	p := make(labelvm.Program, n)
+	for i := range p {
+		p[i] = labelvm.Ins{Kind: labelvm.Ret, Val: 0x30000000 + uint32(i)}
+	}
+	p[0] = labelvm.Ins{Kind: labelvm.Load}
+	p[1] = labelvm.Ins{Kind: labelvm.Jump, Cond: c06Conds[d.Cond%len(c06Conds)], Val: 0x7777, T: 2 + m, F: 2}
+	for i := 0; i < m; i++ {
+		p[2+i] = labelvm.Ins{Kind: labelvm.Jump, Cond: c06Conds[i%len(c06Conds)], Val: uint32(i+1)<<4 | 1, T: base + 2*i, F: base + 2*i + 1}
+	}
+	return p
 }
 
 type c06Huge struct {
@@ -66,6 +94,9 @@ var c06Conds = []int{int(bpf.JumpEqual), int(bpf.JumpNotEqual), int(bpf.JumpGrea
 
 // drawLabelProgram generates a well-formed label program by construction.
 func drawLabelProgram(t *rapid.T) c06Case {
+	if rapid.IntRange(0, 99).Draw(t, "dense") == 0 {
+		return c06Case{Dense: &c06Dense{M: rapid.IntRange(30, 126).Draw(t, "denseM"), Cond: rapid.IntRange(0, 7).Draw(t, "denseCond")}, Seed: rapid.Uint64().Draw(t, "seed")}
+	}
 	if rapid.IntRange(0, 199).Draw(t, "huge") == 0 {
 		h := &c06Huge{NonRet: rapid.Bool().Draw(t, "hugeNonRet"), Val: rapid.Uint32().Draw(t, "hugeVal")}
 		base := []int{65536, 65536, 131072}[rapid.IntRange(0, 2).Draw(t, "hugeBase")]
@@ -174,6 +205,9 @@ func drawLabelProgram(t *rapid.T) c06Case {
 	p[n-1] = labelvm.Ins{Kind: labelvm.Ret, Val: 0x10000000 + uint32(n-1)}
 	c := c06Case{Prog: p, Seed: rapid.Uint64().Draw(t, "seed")}
 	c.Again = []int{0, 0, 0, 0, 1, 1, 2}[rapid.IntRange(0, 6).Draw(t, "again")]
+	if rapid.IntRange(0, 2).Draw(t, "withZero") == 0 {
+		c.ZeroAt = rapid.IntRange(1, 41).Draw(t, "zeroAt")
+	}
 	return c
 }
 
@@ -253,6 +287,41 @@ func checkC06(raw json.RawMessage) (ev.Result, error) {
 		}
 		p = hugeProgram(c.Huge)
 	}
+	if c.Dense != nil {
+		if c.Dense.M < 1 || c.Dense.M > 2000 {
+			return ev.Result{}, ev.Inconclusivef("ill-formed dense program")
+		}
+		p = denseProgram(c.Dense)
+	}
+	if c.ZeroAt > 0 && c.Huge == nil && c.Dense == nil {
+		// (a copy: the case itself is not modified)
+		p = append(labelvm.Program(nil), p...)
+		k, far := 0, -1
+		for i := range p {
+			if p[i].Kind != labelvm.Jump {
+				continue
+			}
+			if p[i].T-i-1 > 255 && far < 0 && k >= (c.ZeroAt-1)%8 {
+				far = i // prefer a jump whose true label is far
+			}
+			k++
+		}
+		z := far
+		if z < 0 {
+			k = 0
+			for i := range p {
+				if p[i].Kind == labelvm.Jump {
+					if k == c.ZeroAt-1 {
+						z = i
+					}
+					k++
+				}
+			}
+		}
+		if z >= 0 {
+			p[z].Val = 0
+		}
+	}
 	if err := p.Validate(); err != nil {
 		return ev.Result{}, ev.Inconclusivef("generator produced an ill-formed program: %v", err)
 	}
@@ -278,6 +347,17 @@ func checkC06(raw json.RawMessage) (ev.Result, error) {
 	}
 	if c.Huge != nil {
 		res.Classes = append(res.Classes, "target-beyond-instruction-65535")
+	}
+	if c.Dense != nil {
+		res.Classes = append(res.Classes, "near-jump-over-a-dense-run-of-far-jumps")
+	}
+	for i, in := range p {
+		if in.Kind == labelvm.Jump && in.Val == 0 {
+			res.Classes = append(res.Classes, "jump-comparing-with-0")
+			if in.T-i-1 > 255 {
+				res.Classes = append(res.Classes, "far-true-branch-of-a-comparison-with-0")
+			}
+		}
 	}
 	prog, err := toRaw(insts)
 	if err != nil {
